@@ -26,6 +26,6 @@ agg = Aggregator(session, top_level_only=False)
 m = agg.model
 ids = lambda a: sorted(f.id for f in a.fits)
 got = ids(agg.query(~(agg.info["k"] == "v")))
-print("returned", got, "expected ['f1', 'f2', 'f3', 'f4']")
-assert got == ["f1"], got
-print("reproduced: not-of-info")
+print("returned", got, "expected ['f1', 'f2', 'f3', 'f4']  (before 596613e: ['f1'])")
+assert got == ["f1", "f2", "f3", "f4"], got
+print("checked: not-of-info (fixed in 596613e)")
